@@ -1,6 +1,6 @@
 (* C03 - the property theorems, nothing else. *)
 From Coq Require Import Permutation.
-From CfdmV Require Import Common.Base Common.PySlice C03.Model C03.Lemmas.
+From CfdmV Require Import Common.Base Common.PySlice C03.Model C03.Lemmas C03.SetLemmas.
 Open Scope Z_scope.
 
 (* Every position a Python slice selects on an axis of size len is a valid index. *)
@@ -71,6 +71,34 @@ Theorem C03_pair_chunks :
   apply1 (chunk_prog n l 0 vlen) f q = apply1 (full_pairs n l 0) f q.
 Proof. exact pair_chunks_correct. Qed.
 Print Assumptions C03_pair_chunks.
+
+(* n-dimensional assignment.  Full statement: for every array, index expression
+   and broadcastable value, Data.__setitem__ (numpy assignment for at most one
+   list axis; otherwise the product of the per-axis slice-pair decompositions,
+   visited block by block with the matching windows of the value) produces the
+   array that the reference semantics produces: element (p_1[t_1], ..., p_d[t_d])
+   receives value[t], row-major, later stores winning.
+   Proved here for every rank, shape, index expression and value, under the
+   guard that no axis selects the same position twice (then all stores hit
+   distinct elements and the block order is a permutation of the row-major
+   order).  What is missing for the unguarded statement: the n-d lift of the
+   last-store-wins argument for repeated positions; it is proved per axis
+   (C03_pair_chunks) and the n-d equality is evaluated on every generated case
+   by Run.check_set. *)
+Theorem C03_setitem_decomposition_partial :
+  forall shape a idx vshape v sh ps poss,
+  parse_indices shape idx = Ok ps -> positions_all_py shape ps = Ok poss ->
+  Forall (@NoDup nat) poss -> shaped sh a -> length sh = length shape ->
+  setitem shape a idx vshape v = setitem_spec shape a idx vshape v.
+Proof. exact setitem_decomposition. Qed.
+Print Assumptions C03_setitem_decomposition_partial.
+
+(* Stores to distinct elements commute, so any visiting order gives the same array. *)
+Theorem C03_exec_any_order :
+  forall P Q, Permutation P Q -> forall sh a, shaped sh a -> prog_ok (length sh) P ->
+  exec P a = exec Q a.
+Proof. exact exec_perm. Qed.
+Print Assumptions C03_exec_any_order.
 
 (* The decomposition as it was at the pinned commit lost the pair (3, 0) (F03a, fixed). *)
 Theorem C03_pair_chunks_old_refuted :
